@@ -151,16 +151,32 @@ fn alpha(kind: &str) -> &'static str {
     }
 }
 
+thread_local! {
+    /// long literals (slow to compile) are generated only for the larger, thorough-tier programs
+    static LONG_LITERALS: std::cell::Cell<bool> = const { std::cell::Cell::new(false) };
+}
+
+pub fn enable_long_literals() {
+    LONG_LITERALS.with(|l| l.set(true));
+}
+
 fn lit_len(kind: &str) -> BoxedStrategy<usize> {
     match kind {
         "kmer" | "kmer_u64" => prop_oneof![3 => 1..=32usize, 2 => select(vec![1usize, 2, 15, 16, 17, 31, 32])].boxed(),
         "kmer_u128" => prop_oneof![3 => 1..=64usize, 2 => select(vec![1usize, 31, 32, 33, 63, 64])].boxed(),
-        _ => prop_oneof![
-            2 => 0..=3usize,
-            5 => select(vec![15usize, 16, 17, 31, 32, 33, 47, 48, 49, 63, 64, 65, 95, 96, 97, 127, 128, 129, 191, 192, 193, 255, 256, 257]),
-            4 => 0..=300usize,
-        ]
-        .boxed(),
+        _ => {
+            // long literals stay below the macros' own limit (bitarr! recursion: 128 words)
+            let long: Vec<usize> = if kind == "iupac" { vec![511, 512, 513, 523, 700, 1024, 1025] } else { vec![1023, 1024, 1025, 1030, 1500, 2047, 2049] };
+            let mut opts: Vec<(u32, BoxedStrategy<usize>)> = vec![
+                (2, (0..=3usize).boxed()),
+                (5, select(vec![15usize, 16, 17, 31, 32, 33, 47, 48, 49, 63, 64, 65, 95, 96, 97, 127, 128, 129, 191, 192, 193, 255, 256, 257]).boxed()),
+                (4, (0..=300usize).boxed()),
+            ];
+            if LONG_LITERALS.with(|l| l.get()) {
+                opts.push((1, select(long).boxed()));
+            }
+            proptest::strategy::Union::new_weighted(opts).boxed()
+        }
     }
 }
 
@@ -249,6 +265,14 @@ pub fn gen_c16_pos(seed: u64, n: usize) -> (String, Vec<LitItem>) {
         fixed.push(("kmer_u128", "TTGCAGCA".repeat(8)[..k].to_string()));
     }
     fixed.push(("kmer_u128", "T".repeat(64)));
+    // long literals with a partial last word whose tail symbols are not the zero code
+    fixed.push(("dna", "ACGT".repeat(257) + "TG"));
+    fixed.push(("iupac", "ACGTRYSWKMBDHVN-".repeat(32) + "NVB"));
+    if n >= 250 {
+        LONG_LITERALS.with(|l| l.set(true));
+        fixed.push(("dna", "GATTACA".repeat(200) + "CCT"));
+        fixed.push(("iupac", "N-WS".repeat(200) + "BDHVN"));
+    }
     let mut list: Vec<(String, String)> = vec![];
     for i in 0..n {
         let (kind, text) = if i < fixed.len() {
@@ -427,7 +451,7 @@ fn decl_strategy() -> BoxedStrategy<(Vec<(u8, u8, Vec<(u8, u8)>, Option<u8>, u8)
     let variant = (
         prop_oneof![6 => any::<u8>(), 2 => select(vec![0u8, 1, 2, 3, 7, 8, 15, 16, 31, 32, 63, 64, 127, 128, 254, 255])],
         any::<u8>(),
-        vec((any::<u8>(), any::<u8>()), 0..3),
+        vec((any::<u8>(), any::<u8>()), 0..4),
         proptest::option::weighted(0.35, 0x20u8..0x7f),
         any::<u8>(),
     );
@@ -518,7 +542,14 @@ fn render_enum(d: &EnumDecl) -> String {
             let _ = writeln!(s, "    #[display({})]", render_char(c));
         }
         if !v.alts.is_empty() {
-            let _ = writeln!(s, "    #[alt({})]", v.alts.iter().map(|a| a.1.clone()).collect::<Vec<_>>().join(", "));
+            // one attribute with all alternatives, or one attribute per group (the declaration means the same)
+            let split = v.alts.len() >= 2 && (v.disc as usize + v.alts.len()) % 2 == 0;
+            if split {
+                let _ = writeln!(s, "    #[alt({})]", v.alts[0].1);
+                let _ = writeln!(s, "    #[alt({})]", v.alts[1..].iter().map(|a| a.1.clone()).collect::<Vec<_>>().join(", "));
+            } else {
+                let _ = writeln!(s, "    #[alt({})]", v.alts.iter().map(|a| a.1.clone()).collect::<Vec<_>>().join(", "));
+            }
         }
         let _ = writeln!(s, "    {} = {},", v.ident, v.disc_src);
     }
@@ -554,7 +585,11 @@ fn arr(a: &[i16; 256]) -> String {
 pub fn gen_c17_pos(seed: u64, n: usize) -> (String, Vec<EnumDecl>) {
     let mut r = runner(seed ^ 0xc17);
     // fixed boundary declarations: largest discriminant 255, 128, 127, 1; explicit widths
-    let fixed: Vec<EnumDecl> = vec![
+    let mut two_attrs = mk_fixed(10, &[("A", 0, "0"), ("C", 1, "1"), ("G", 4, "0b100")], Some(4));
+    two_attrs.variants[0].alts = vec![(2, "2".into()), (3, "0x3".into()), (9, "9".into())];
+    two_attrs.variants[2].alts = vec![(6, "6".into()), (7, "0b111".into())];
+    two_attrs.variants[2].display = Some(b'*');
+    let mut fixed: Vec<EnumDecl> = vec![
         mk_fixed(0, &[("A", 0, "0"), ("B", 255, "255")], None),
         mk_fixed(1, &[("A", 0, "0b0"), ("B", 255, "0xff")], Some(8)),
         mk_fixed(2, &[("L", 127, "127"), ("M", 1, "1")], None),
@@ -566,6 +601,7 @@ pub fn gen_c17_pos(seed: u64, n: usize) -> (String, Vec<EnumDecl>) {
         mk_fixed(8, &[("W", 4, "4"), ("Z", 2, "2")], Some(3)),
         mk_fixed(9, &[("W", 7, "0o7"), ("Z", 2, "2")], Some(3)),
     ];
+    fixed.push(two_attrs);
     let mut list = vec![];
     for i in 0..n {
         list.push(if i < fixed.len() { fixed[i].clone() } else { finish(i, sample(&mut r, &decl_strategy())) });
